@@ -270,6 +270,12 @@ func runHostile(c HostileCase) vh.Result {
 				l := k[len(out)+1:]
 				okA = okA || strings.HasPrefix(l, a)
 				okB = okB || l == b
+				if len(c.Conns[ci].BeforeC) > 0 && strings.HasPrefix(l, sentinelLog(ci, "B", false)+"\n") {
+					// the blank lines in front of sentinel C arrived before the periodic flush had handed sentinel B on (the
+					// pause is only a sleep): they are continuation lines of B then, and a record of several lines is passed on
+					// as it came, without unescaping - B is the head of that record, nothing of it is lost or altered
+					okB = true
+				}
 				okC = okC || l == cc
 			}
 			var near []string
